@@ -124,6 +124,9 @@ Lemma verified_interval_checkers_sound_all :
   (forall l A g ions psi eps tk, check_grahame l A g ions psi eps tk = true ->
     let gr := grahame (Q2R eps) (Q2R tk) (to_R (balancing_ion ions :: ions)) (Q2R psi) in
     Rabs (sigma_of_species (to_R l) (Q2R A) (Q2R g) - gr) <= / 100000000 * Rabs gr) /\
+  (forall l A g ions psi eps tk, check_grahame_loose l A g ions psi eps tk = true ->
+    let gr := grahame (Q2R eps) (Q2R tk) (to_R (balancing_ion ions :: ions)) (Q2R psi) in
+    Rabs (sigma_of_species (to_R l) (Q2R A) (Q2R g) - gr) <= / 10000 * Rabs gr) /\
   (forall la lk terms dz psi tk, check_mass_action la lk terms dz psi tk = true ->
     Rabs (Q2R la - (Q2R lk + charge_sum (to_R terms) + log10 (boltzmann (Q2R dz) (Q2R tk) (Q2R psi)))) <= / 100000000) /\
   (forall m equiv sites la, check_activity m equiv sites la = true ->
@@ -131,4 +134,4 @@ Lemma verified_interval_checkers_sound_all :
   (forall Ei Er zi zr, check_donnan_ratio Ei Er zi zr = true ->
     0 < Q2R Er /\ Q2R zr <> 0 /\
     Rabs (Q2R Ei - Rpower (Q2R Er) (Q2R zi / Q2R zr)) <= / 100000000 * Rabs (Rpower (Q2R Er) (Q2R zi / Q2R zr))).
-Proof. exact (conj Checker.check_ddl_sound (conj Checker.check_ddl_loose_sound (conj Checker.check_grahame_sound (conj Checker.check_mass_action_sound (conj Checker.check_activity_sound Checker.check_donnan_ratio_sound))))). Qed.
+Proof. exact (conj Checker.check_ddl_sound (conj Checker.check_ddl_loose_sound (conj Checker.check_grahame_sound (conj Checker.check_grahame_loose_sound (conj Checker.check_mass_action_sound (conj Checker.check_activity_sound Checker.check_donnan_ratio_sound)))))). Qed.
